@@ -44,20 +44,46 @@ def _multi_hash(self):
     return v
 
 
+def _obj_hash(self):
+    """supp.name.Object subclasses that are not Locations: ClassObject, InstanceValue, FuncObject, modules, ..."""
+    d = self.__dict__
+    seed = _state['seed']
+    c = d.get('_vhash')
+    if c is not None and c[0] == seed:
+        return c[1]
+    t = type(self).__name__
+    sc = d.get('scope')
+    if t == 'InstanceValue':
+        sc = getattr(d.get('cls'), 'scope', None)
+    if sc is not None and hasattr(sc, 'declared_at'):
+        desc = (getattr(sc, 'name', None), sc.declared_at, getattr(getattr(sc, 'top', None), 'filename', None))
+    elif t == 'SourceModule':
+        desc = (d.get('name'),)
+    elif t == 'ImportedModule':
+        desc = (getattr(d.get('module'), '__name__', None),)
+    else:
+        desc = ()
+    v = _h(seed, t, desc)
+    d['_vhash'] = (seed, v)
+    return v
+
+
 def install(seed):
-    """From now on Location/MultiName objects hash by (seed, description)."""
+    """From now on Location/MultiName/Object instances hash by (seed, description)."""
     if not _state['installed']:
         _orig['loc'] = supp.util.Location.__dict__.get('__hash__')
         _orig['multi'] = supp.name.MultiName.__dict__.get('__hash__')
+        _orig['obj'] = supp.name.Object.__dict__.get('__hash__')
         supp.util.Location.__hash__ = _loc_hash
         supp.name.MultiName.__hash__ = _multi_hash
+        supp.name.Object.__hash__ = _obj_hash
         _state['installed'] = True
     _state['seed'] = seed
 
 
 def uninstall():
     if _state['installed']:
-        for cls, key in ((supp.util.Location, 'loc'), (supp.name.MultiName, 'multi')):
+        for cls, key in ((supp.util.Location, 'loc'), (supp.name.MultiName, 'multi'), (supp.name.Object, 'obj')):
             if _orig[key] is None:
                 try:
                     del cls.__hash__
